@@ -282,7 +282,7 @@ fn run_laws(c: &Case, laws: Laws) -> Result<(), Failure> {
             let got = snap(&mut buf, with_inserted(&built, k, hidden_extra.clone()), win, (0, 0));
             if let Some(d) = first_diff(&base, &got, win, everywhere) {
                 return Err((
-                    key("L1.hidden_layer_influences", &format!("op=insert,hidden={}", lclass(&c.extra)), &d),
+                    key("L1.hidden_layer_influences", &format!("hidden={}", lclass(&c.extra)), &d),
                     format!("inserting the hidden layer `extra` at index {k} changed the picture {}", d.text),
                 ));
             }
@@ -296,7 +296,7 @@ fn run_laws(c: &Case, laws: Laws) -> Result<(), Failure> {
             let got = snap(&mut buf, s, win, (0, 0));
             if let Some(d) = first_diff(&base, &got, win, everywhere) {
                 return Err((
-                    key("L1.hidden_layer_influences", &format!("op=remove,hidden={}", lclass(&c.layers[i])), &d),
+                    key("L1.hidden_layer_influences", &format!("hidden={}", lclass(&c.layers[i])), &d),
                     format!("removing hidden layer {i} changed the picture {}", d.text),
                 ));
             }
@@ -305,8 +305,8 @@ fn run_laws(c: &Case, laws: Laws) -> Result<(), Failure> {
             let got = snap(&mut buf, s, win, (0, 0));
             if let Some(d) = first_diff(&base, &got, win, everywhere) {
                 return Err((
-                    key("L1.hidden_layer_influences", &format!("op=mutate,hidden={}->{}", lclass(&c.layers[i]), lclass(&c.extra)), &d),
-                    format!("replacing hidden layer {i} by the hidden layer `extra` changed the picture {}", d.text),
+                    key("L1.hidden_layer_influences", &format!("hidden={}", lclass(&c.extra)), &d),
+                    format!("replacing hidden layer {i} ({}) by the hidden layer `extra` changed the picture {}", lclass(&c.layers[i]), d.text),
                 ));
             }
         }
